@@ -75,6 +75,8 @@ def get_pool(nproc):
         return None
     if _POOL[0] is None or _POOL[1] != nproc:
         close_pool()
+        import gc
+        gc.freeze()
         _POOL[0] = multiprocessing.get_context('fork').Pool(nproc)
         _POOL[1] = nproc
         import atexit
